@@ -471,7 +471,7 @@ pub fn run(ctx: &Ctx) {
     }
     let mut rng = Rng::new(ctx.seed);
     let thorough = ctx.tier_thorough;
-    for i in 0..(if thorough { 20000 } else { 2500 }) {
+    for i in 0..(if thorough { 8000 } else { 2500 }) {
         let plan = gen_plan(&mut rng, thorough);
         emit(&mut out, i % 3 == 0, &plan);
     }
